@@ -754,6 +754,32 @@ impl TypeCheckVisitor<'_> {
         let scrutinee_ty = self.infer_expr(scrutinee, type_bindings, expected_return_ty);
         let scrutinee_ty_name = scrutinee_ty.type_name();
 
+        // Only enum values can be matched on at runtime, even when
+        // every case is `_`. Cases that name a variant of another
+        // type are reported below, so only report the scrutinee when
+        // nothing else would: all the cases are `_`, or the scrutinee
+        // is a tuple (which has no type name to compare against).
+        let scrutinee_is_enum = match &scrutinee_ty {
+            Type::UserDefined { name, .. } => !matches!(
+                self.env.get_type_def(name),
+                Some(TypeDef::Struct(_) | TypeDef::BuiltIn(_, _))
+            ),
+            Type::Tuple(_) | Type::Fun { .. } => false,
+            Type::Any | Type::TypeParameter(_) | Type::Error { .. } => true,
+        };
+        let all_underscore = cases
+            .iter()
+            .all(|(pattern, _)| pattern.variant_sym.name.is_underscore());
+        if !scrutinee_is_enum && (all_underscore || matches!(scrutinee_ty, Type::Tuple(_))) {
+            self.diagnostics.push(Diagnostic {
+                notes: vec![],
+                fixes: vec![],
+                severity: Severity::Error,
+                message: format_mismatch_text("an enum value", &scrutinee_ty),
+                position: scrutinee.position.clone(),
+            });
+        }
+
         if let Some(scrutinee_ty_name) = &scrutinee_ty_name {
             check_match_exhaustive(
                 self.env,
